@@ -56,6 +56,14 @@ def check_one(g, part, d, frame, cls, trailing="none"):
                      "payload_class": cls, "trailing": trailing, "frame": frame.hex()[:100], "verdict": v})
 
 
+def pick_txid(rnd):
+    """any transaction id 1..65535 is conforming - among them the ones whose bytes mean something in the other framings (0xAA55 = AA55 header,
+    0xF703 / 0x7F03 = unit + function code of an RTU frame) and the ends of the range"""
+    if rnd.random() < 0.3:
+        return rnd.choice((0xAA55, 0x55AA, 0xF703, 0x7F03, 0xF706, 0xF710, 1, 2, 0x00FF, 0x0100, 0x7FFF, 0x8000, 0xFFFE, 0xFFFF))
+    return rnd.randrange(1, 65536)
+
+
 def direct(spec, part):
     g = env.goodwe()
     rnd = random.Random(spec["seed"])
@@ -77,7 +85,7 @@ def direct(spec, part):
                         if t:
                             part.count("rtu_trailing")
                 else:
-                    check_one(g, part, d, rc.tcp_response(d, pl, txid=rnd.randrange(1, 65535)), cls)
+                    check_one(g, part, d, rc.tcp_response(d, pl, txid=pick_txid(rnd)), cls)
                 # the answering unit reports another address than the one the request was sent to (gateways, broadcast address)
                 d_other = dict(d, comm=(comm + rnd.randrange(1, 255)) % 256)
                 check_one(g, part, d, rc.rtu_response(d_other, pl) if framing == "rtu" else rc.tcp_response(d_other, pl, txid=7), cls, "othercomm")
@@ -85,7 +93,7 @@ def direct(spec, part):
         vals = [0, 1, -1, 32767, -32768, 255, -256, 0x7F, -0x80] + [rnd.randrange(-32768, 32768) for _ in range(spec["nvals"])]
         for v in vals:
             d = {"framing": framing, "kind": "write", "comm": rnd.choice(comms), "reg": rnd.randrange(65536), "value": v}
-            fr = rc.rtu_response(d) if framing == "rtu" else rc.tcp_response(d, txid=rnd.randrange(1, 65535))
+            fr = rc.rtu_response(d) if framing == "rtu" else rc.tcp_response(d, txid=pick_txid(rnd))
             check_one(g, part, d, fr, "echo")
             d_other = dict(d, comm=(d["comm"] + rnd.randrange(1, 255)) % 256)
             check_one(g, part, d, rc.rtu_response(d_other) if framing == "rtu" else rc.tcp_response(d_other, txid=7), "echo", "othercomm")
@@ -98,7 +106,7 @@ def direct(spec, part):
                 continue
             d = {"framing": framing, "kind": "multi", "comm": 0xF7, "reg": rnd.randrange(65536),
                  "data": payload_bytes(rnd, nb), "count": nb // 2}
-            fr = rc.rtu_response(d) if framing == "rtu" else rc.tcp_response(d, txid=rnd.randrange(1, 65535))
+            fr = rc.rtu_response(d) if framing == "rtu" else rc.tcp_response(d, txid=pick_txid(rnd))
             check_one(g, part, d, fr, "echo")
             d_other = dict(d, comm=0x7F)
             check_one(g, part, d, rc.rtu_response(d_other) if framing == "rtu" else rc.tcp_response(d_other, txid=7), "echo", "othercomm")
